@@ -520,9 +520,11 @@ impl<'a, R: RealNumberInternalTrait> Interpreter<'a, R> {
             std::env::current_dir()?
         };
         // TODO: file extension, file system variants
-        let path = base_directory
-            .join(name.deref().path())
-            .with_extension("sld");
+        // the extension is appended: `with_extension` would replace what follows the last dot of
+        // the last name element, so (a.b) would be looked up at a.sld
+        let mut path = base_directory.join(name.deref().path()).into_os_string();
+        path.push(".sld");
+        let path = std::path::PathBuf::from(path);
         if path.exists() {
             let char_stream = file_char_stream(&path)?;
             LibraryFactory::from_char_stream(name.deref(), char_stream)
